@@ -213,9 +213,57 @@ Definition subst_seqs (eqs : list cond) : list (list (string * expr)) :=
 
 Definition apply_seq (sq : list (string * expr)) (c : cond) : cond := fold_left (fun c s => csubst s c) sq c.
 
+(* ------------------------------------------------------------------ structural rounding *)
+(* "o is h with every constant rounded": same tree, every constant of o within tol of the constant of h at the same
+   place; a term of a sum whose constant factor is within tol of zero may be missing in o (the printer drops it),
+   and an expression that vanishes altogether is printed as 0.  This is the meaning of "rounded" for output that is
+   not a sum of monomials (sympy's simplify() may return products of sums). *)
+Fixpoint vanishing (tol : Q) (h : expr) : bool :=
+  match h with
+  | ENum c => Qle_bool (Qabs c) tol
+  | EVar _ => false
+  | EBin OMul a b => vanishing tol a || vanishing tol b
+  | EBin OAdd a b => vanishing tol a && vanishing tol b
+  | EBin _ _ _ => false
+  end.
+
+Inductive eround (tol : Q) : expr -> expr -> Prop :=
+| ER_num p q : Qabs (p - q) <= tol -> eround tol (ENum p) (ENum q)
+| ER_var v : eround tol (EVar v) (EVar v)
+| ER_bin o a b a' b' : eround tol a a' -> eround tol b b' -> eround tol (EBin o a b) (EBin o a' b')
+| ER_dropl z a o : vanishing tol z = true -> eround tol a o -> eround tol (EBin OAdd z a) o
+| ER_dropr z a o : vanishing tol z = true -> eround tol a o -> eround tol (EBin OAdd a z) o
+| ER_zero z q : vanishing tol z = true -> q == 0 -> eround tol z (ENum q).
+
+Definition cround (tol : Q) (h o : cond) : Prop :=
+  c_op h = c_op o /\ eround tol (c_l h) (c_l o) /\ eround tol (c_r h) (c_r o).
+
+Definition binop_eqb (a b : binop) : bool :=
+  match a, b with OAdd, OAdd | OSub, OSub | OMul, OMul | ODiv, ODiv => true | _, _ => false end.
+
+Fixpoint eround_b (tol : Q) (h o : expr) : bool :=
+  match h, o with
+  | ENum p, ENum q => Qle_bool (Qabs (p - q)) tol
+  | EVar v, EVar w => String.eqb v w
+  | EBin op a b, EBin op' a' b' => binop_eqb op op' && eround_b tol a a' && eround_b tol b b'
+  | _, _ => false
+  end
+  || match h with
+     | EBin OAdd a b => (vanishing tol a && eround_b tol b o) || (vanishing tol b && eround_b tol a o)
+     | _ => false
+     end
+  || (vanishing tol h && match o with ENum q => Qeq_bool q 0 | _ => false end).
+
+Definition cmp_eqb (a b : cmp) : bool :=
+  match a, b with CLe, CLe | CGe, CGe | CLt, CLt | CGt, CGt | CEq, CEq => true | _, _ => false end.
+
+Definition cround_b (tol : Q) (h o : cond) : bool :=
+  cmp_eqb (c_op h) (c_op o) && eround_b tol (c_l h) (c_l o) && eround_b tol (c_r h) (c_r o).
+
 (* ------------------------------------------------------------------ "mid" conditions and rounding *)
-(* what an output condition is a rounding of: either nothing was rounded (the output condition itself is
-   exactly equivalent), or a polynomial condition whose coefficients are close to the printed ones *)
+(* what an output condition is a rounding of: a condition of which the output is a structural rounding (in
+   particular the output condition itself), or a polynomial condition whose coefficients are close to the
+   coefficients of the printed one *)
 Inductive mcond :=
 | MExact (c : cond)
 | MPoly (o : cmp) (l r : poly).
@@ -226,13 +274,17 @@ Definition msat (rho : valuation) (m : mcond) : Prop :=
   | MPoly o l r => cmp_holds o (peval rho l) (peval rho r)
   end.
 
-Definition cmp_eqb (a b : cmp) : bool :=
-  match a, b with CLe, CLe | CGe, CGe | CLt, CLt | CGt, CGt | CEq, CEq => true | _, _ => false end.
+(* no divisor of the mid condition vanishes (polynomial conditions have none) *)
+Definition mdefined (rho : valuation) (m : mcond) : Prop :=
+  match m with
+  | MExact c => cdefined rho c
+  | MPoly _ _ _ => True
+  end.
 
-(* o is m with every coefficient rounded to d decimals (error at most half a unit of the last decimal) *)
+(* o is m with every constant / coefficient rounded to d decimals (error at most half a unit of the last decimal) *)
 Definition rounded (d : nat) (m : mcond) (o : cond) : Prop :=
   match m with
-  | MExact c => c = o
+  | MExact c => cround (tol_of d) c o
   | MPoly op l r =>
       op = c_op o /\
       exists lo ro, pnorm (c_l o) = Some lo /\ pnorm (c_r o) = Some ro /\
@@ -299,12 +351,16 @@ Definition match_exact (c o : cond) : bool :=
      | _ => false
      end.
 
-(* c is an input condition, eqs the equalities that may be used, o an output condition *)
-Definition match_cond (d : nat) (eqs : list cond) (c o : cond) : option mcond :=
+(* c is an input condition, eqs the equalities that may be used, o an output condition, hs candidate "hints":
+   conditions of which o might be a structural rounding (untrusted, supplied by the harness; o itself is always
+   tried) *)
+Definition match_cond (d : nat) (eqs hs : list cond) (c o : cond) : option mcond :=
   first_some (fun sq =>
     match match_poly d (apply_seq sq c) o with
     | Some m => Some m
-    | None => if match_exact (apply_seq sq c) (apply_seq sq o) then Some (MExact o) else None
+    | None =>
+        first_some (fun h => if cround_b (tol_of d) h o && match_exact (apply_seq sq c) (apply_seq sq h)
+                             then Some (MExact h) else None) (o :: hs)
     end) (subst_seqs eqs).
 
 (* an equality that holds for every valuation may be omitted *)
@@ -314,9 +370,27 @@ Definition trivial (c : cond) : bool :=
   | _ => false
   end.
 
+Definition cmp_b (o : cmp) (x y : Q) : bool :=
+  match o with
+  | CLe => Qle_bool x y | CGe => Qle_bool y x
+  | CLt => negb (Qle_bool y x) | CGt => negb (Qle_bool x y) | CEq => Qeq_bool x y
+  end.
+
+(* both sides are constant polynomials and the comparison holds *)
+Definition const_holds (c : cond) : bool :=
+  match pnorm (c_l c), pnorm (c_r c) with
+  | Some l, Some r => match as_const l, as_const r with Some x, Some y => cmp_b (c_op c) x y | _, _ => false end
+  | _, _ => false
+  end.
+
+(* a condition that may be omitted because the equalities [eqs] imply it: after eliminating fluents by them it is a
+   comparison of constants that holds *)
+Definition implied (eqs : list cond) (c : cond) : bool :=
+  existsb (fun sq => const_holds (apply_seq sq c)) (subst_seqs eqs).
+
 (* all the ways an input condition is printed: one "mid" per output condition that matches it *)
-Definition cover (d : nat) (eqs : list cond) (out : list cond) (c : cond) : list mcond :=
-  somes (map (match_cond d eqs c) out).
+Definition cover (d : nat) (eqs hs : list cond) (out : list cond) (c : cond) : list mcond :=
+  somes (map (match_cond d eqs hs c) out).
 
 Definition is_eq (c : cond) : bool := cmp_eqb (c_op c) CEq.
 
@@ -336,7 +410,7 @@ Definition cond_eqb (a b : cond) : bool :=
 (* decidable version of [rounded] *)
 Definition rounds_to (d : nat) (m : mcond) (o : cond) : bool :=
   match m with
-  | MExact c => cond_eqb c o
+  | MExact c => cround_b (tol_of d) c o
   | MPoly op l r =>
       cmp_eqb op (c_op o) &&
       match pnorm (c_l o), pnorm (c_r o) with
@@ -347,27 +421,32 @@ Definition rounds_to (d : nat) (m : mcond) (o : cond) : bool :=
 
 (* The checker for a precondition's set of numeric conditions:
    every input condition is covered by an output condition (inequalities may use the input equalities for
-   elimination, equalities may not) or is an identity; every output condition is the rounding of one of the
-   conditions so obtained. *)
-Definition check_pre (d : nat) (conds out : list cond) : bool :=
+   elimination, equalities may not), or is an identity, or is implied by the input equalities (which are themselves
+   covered); every output condition is the rounding of one of the conditions so obtained. *)
+Definition check_pre (d : nat) (hs conds out : list cond) : bool :=
   let eqs := filter is_eq conds in
-  let f := fun c => cover d (if is_eq c then [] else eqs) out c in
-  forallb (fun c => match f c with [] => trivial c | _ => true end) conds &&
+  let use := fun c => if is_eq c then [] else eqs in
+  let f := fun c => cover d (use c) hs out c in
+  forallb (fun c => match f c with [] => trivial c || implied (use c) c | _ => true end) conds &&
   forallb (fun o => existsb (fun m => rounds_to d m o) (flat_map f conds)) out.
 
-(* one inequality under explicitly given assumptions (simplify_inequality's own interface) *)
-Definition check_under (d : nat) (assumptions : list cond) (c o : cond) : option mcond :=
-  match_cond d (filter is_eq assumptions) c o.
+(* one inequality under explicitly given assumptions (simplify_inequality's own interface); None of the library
+   (the inequality was omitted) is judged by [implied] *)
+Definition check_under (d : nat) (assumptions hs : list cond) (c o : cond) : option mcond :=
+  match_cond d (filter is_eq assumptions) hs c o.
 
-(* a bare expression (simplify_complex_numeric_expression): polynomial and close, or exactly equal as a
-   rational function *)
-Definition check_expr (d : nat) (e o : expr) : bool :=
+Definition equiv_b (e h : expr) : bool :=
+  let (ne, de) := rnorm e in let (nh, dh) := rnorm h in
+  is_zero (pclean (psub (pmul nh de) (pmul ne dh))).
+
+(* a bare expression (simplify_complex_numeric_expression): polynomial and coefficientwise close, or a structural
+   rounding of an expression (the output itself or a hint) that is exactly equal to the input as a rational function *)
+Definition check_expr (d : nat) (hs : list expr) (e o : expr) : bool :=
   match pnorm e, pnorm o with
   | Some p, Some q => close_b (tol_of d) p q
   | _, _ => false
   end
-  || let (ne, de) := rnorm e in let (no, dn) := rnorm o in
-     is_zero (pclean (psub (pmul no de) (pmul ne dn))).
+  || existsb (fun h => eround_b (tol_of d) h o && equiv_b e h) (o :: hs).
 
 (* ------------------------------------------------------------------ reading printed text back *)
 (* restricted grammar: number | ( name arg* ) | ( op e e ) with op one of + - * /;
@@ -430,14 +509,15 @@ Definition name_start (s : string) : bool :=
   | EmptyString => false
   end.
 
-Fixpoint expr_of_sexp (e : sexp) : option expr :=
+(* [rd] reads a number token *)
+Fixpoint expr_of_sexp_with (rd : string -> option Q) (e : sexp) : option expr :=
   match e with
-  | Atom s => match read_number s with Some q => Some (ENum q) | None => None end
+  | Atom s => match rd s with Some q => Some (ENum q) | None => None end
   | SList (Atom h :: args) =>
       match binop_of h with
       | Some o =>
           match args with
-          | [a; b] => match expr_of_sexp a, expr_of_sexp b with
+          | [a; b] => match expr_of_sexp_with rd a, expr_of_sexp_with rd b with
                       | Some x, Some y => Some (EBin o x y)
                       | _, _ => None
                       end
@@ -454,15 +534,19 @@ Fixpoint expr_of_sexp (e : sexp) : option expr :=
   | SList _ => None
   end.
 
-Definition cond_of_sexp (e : sexp) : option cond :=
+Definition cond_of_sexp_with (rd : string -> option Q) (e : sexp) : option cond :=
   match e with
   | SList [Atom h; a; b] =>
-      match cmp_of h, expr_of_sexp a, expr_of_sexp b with
+      match cmp_of h, expr_of_sexp_with rd a, expr_of_sexp_with rd b with
       | Some o, Some x, Some y => Some {| c_op := o; c_l := x; c_r := y |}
       | _, _, _ => None
       end
   | _ => None
   end.
+
+(* the reading of printed output: numbers are -?digits(.digits)? *)
+Definition expr_of_sexp : sexp -> option expr := expr_of_sexp_with read_number.
+Definition cond_of_sexp : sexp -> option cond := cond_of_sexp_with read_number.
 
 (* evaluation at a point given as an association list (second oracle of the correspondence) *)
 Fixpoint lookup (l : list (string * Q)) (v : string) : Q :=
@@ -483,8 +567,3 @@ Fixpoint eval_opt (rho : valuation) (e : expr) : option Q :=
       end
   end.
 
-Definition cmp_b (o : cmp) (x y : Q) : bool :=
-  match o with
-  | CLe => Qle_bool x y | CGe => Qle_bool y x
-  | CLt => negb (Qle_bool y x) | CGt => negb (Qle_bool x y) | CEq => Qeq_bool x y
-  end.
